@@ -62,6 +62,18 @@ def char_tokens(strings):
     return ','.join(sorted(toks))
 
 
+def exotic_chars(strings):
+    """Control, line-boundary and other non-printable characters present in
+    some strings, as U+XXXX tokens ('' if there are none)."""
+    toks = set()
+    for s in strings:
+        for ch in s:
+            o = ord(ch)
+            if o < 0x20 or 0x7f <= o <= 0x9f or o in (0x2028, 0x2029):
+                toks.add('U+%04X' % o)
+    return ','.join(sorted(toks))
+
+
 class C01(Check):
     pid = 'C01'
     title = ('discovered DataFrame constraints are satisfied by the data '
@@ -389,7 +401,23 @@ class C01(Check):
                             for r in fc['rex']]
                     un = [s for s in col['v'] if s is not None
                           and not any(p.match(s) for p in pats)]
-                    disc = ':unmatched=%s' % char_tokens(un)
+                    # `un` is computed with the documented flags (UNICODE |
+                    # DOTALL): empty means the expressions do match the data
+                    # and the verifier applied them differently
+                    disc = ':unmatched=%s' % (
+                        char_tokens(un) if un else 'none-under-DOTALL')
+                    ex = exotic_chars(x for x in col['v']
+                                      if isinstance(x, str))
+                    if ex and not un:
+                        disc += ':chars=%s' % ex
+                elif col is not None and kind in (
+                        'min_length', 'max_length', 'allowed_values',
+                        'no_duplicates') and any(isinstance(x, str)
+                                                 for x in col['v']):
+                    ex = exotic_chars(x for x in col['v']
+                                      if isinstance(x, str))
+                    if ex:
+                        disc = ':chars=%s' % ex
                 what = ('fails-own' if verdict is False or
                         (verdict not in (None, '<absent>'))
                         else 'no-verdict')
